@@ -445,7 +445,7 @@ pub fn constrain_for_acceptance(log: &mut TextLog, bss: &[u64]) {
 
 
 /// Known finding F22 (streamed .gz/.bz2/.lz4 text): when a line ends exactly on the last byte of a block and the
-/// next line fills whole blocks exactly (its newline is the first byte of a later block), the messages before it are
+/// next line is at least one block long, the messages before it can be
 /// lost at that block size. Cases with this alignment are excluded by construction for those containers.
 pub fn streamed_alignment_hazard(bytes: &[u8], bs: u64) -> bool {
     let mut prev_nl: Option<u64> = None;
@@ -453,7 +453,9 @@ pub fn streamed_alignment_hazard(bytes: &[u8], bs: u64) -> bool {
         if b == b'\n' {
             let i = i as u64;
             if let Some(p) = prev_nl {
-                if p % bs == bs - 1 && i % bs == 0 {
+                // observed with the next newline exactly on a block start and, with header lines before the
+                // first message, with any next line of a block or more; excluded conservatively
+                if p % bs == bs - 1 && i - p >= bs {
                     return true;
                 }
             }
